@@ -66,7 +66,7 @@ def mutate(draw: t.Any, v: t.Any, names: t.Sequence[str], depth: int = 0) -> t.A
     if seq:
         ops += ['drop', 'dup', 'append', 'to_str', 'to_map', 'reshape']
     if mp:
-        ops += ['dropkey', 'addkey', 'addkey', 'renamekey', 'to_items', 'reshape', 'badkey']
+        ops += ['dropkey', 'addkey', 'addkey', 'renamekey', 'to_items', 'reshape', 'badkey', 'inserting-drop']
     if isinstance(v, str):
         ops += ['to_chars', 'to_bytes']
     if isinstance(v, bool):
@@ -110,6 +110,13 @@ def mutate(draw: t.Any, v: t.Any, names: t.Sequence[str], depth: int = 0) -> t.A
         if kind == 'proxy':
             return types.MappingProxyType(dict(items))
         return dict(items)
+    if op == 'inserting-drop':
+        # a mapping whose lookup inserts missing keys (defaultdict), with one key taken away: a converter that indexes
+        # instead of testing membership invents the value and changes the caller's data
+        pairs = list(v.items())
+        if pairs:
+            pairs.pop(draw(st.integers(0, len(pairs) - 1)))
+        return collections.defaultdict(draw(st.sampled_from([int, list, str, dict])), pairs)
     if op == 'dropkey':
         pairs = list(v.items())
         if pairs:
